@@ -1233,6 +1233,59 @@ CLEARS = [{'op': 'clearAll'}, {'op': 'clearLoaders'}, {'op': 'clearPipes', 'l': 
           {'op': 'clearSteps'}]
 
 
+_ORDER = {}
+
+
+def clear_all_order(repo=None):
+    """(names, straight): the `<name>.clear()` statements of pypyr.cache.admin.clear_all in source order, read by ast
+    from the tree under test; straight = the body is nothing but these, logging calls and the docstring."""
+    repo = Path(repo or common.REPO)
+    if repo in _ORDER:
+        return _ORDER[repo]
+    import ast
+    tree = ast.parse((repo / 'pypyr' / 'cache' / 'admin.py').read_text(encoding='utf-8'))
+    fn = next((n for n in ast.walk(tree) if isinstance(n, ast.FunctionDef) and n.name == 'clear_all'), None)
+    if fn is None:
+        raise ValueError('pypyr/cache/admin.py has no clear_all')
+    names, straight = [], True
+
+    def is_clear(call):
+        return (isinstance(call, ast.Call) and isinstance(call.func, ast.Attribute) and call.func.attr == 'clear'
+                and isinstance(call.func.value, ast.Name) and not call.args and not call.keywords)
+    for st in fn.body:
+        if isinstance(st, ast.Expr) and isinstance(st.value, ast.Constant):
+            continue
+        if isinstance(st, ast.Expr) and is_clear(st.value):
+            names.append(st.value.func.value.id)
+            continue
+        if (isinstance(st, ast.Expr) and isinstance(st.value, ast.Call) and isinstance(st.value.func, ast.Attribute)
+                and isinstance(st.value.func.value, ast.Name) and st.value.func.value.id == 'logger'):
+            continue
+        straight = False
+        calls = sorted((n for n in ast.walk(st) if is_clear(n)), key=lambda n: (n.lineno, n.col_offset))
+        names += [n.func.value.id for n in calls]
+    _ORDER[repo] = (names, straight)
+    return _ORDER[repo]
+
+
+def extract(env):
+    """lean/Generated/CacheAdmin.lean: the order of the clears in clear_all of the tree under test; Props/C13.lean
+    `clear_all_order_inner_first` proves that order empties file_cache before loader_cache."""
+    names, straight = clear_all_order()
+    lst = ', '.join('"' + n.replace('\\', '').replace('"', '') + '"' for n in names)
+    text = ('/- GENERATED by harness/props/c13.py `extract` from pypyr/cache/admin.py of the tree under test (ast only). '
+            'Do not edit. -/\n'
+            'namespace Pypyr.Generated.CacheAdmin\n\n'
+            '/-- the `<name>.clear()` statements of `clear_all`, in source order -/\n'
+            f'def clearAllOrder : List String := [{lst}]\n\n'
+            "/-- `clear_all`'s body is a straight line of `<module-level name>.clear()` calls (+ logging): nothing else -/\n"
+            f'def clearAllStraight : Bool := {"true" if straight else "false"}\n\n'
+            'end Pypyr.Generated.CacheAdmin\n')
+    out = common.LEAN / 'Generated' / 'CacheAdmin.lean'
+    if not out.exists() or out.read_text() != text:
+        out.write_text(text)
+
+
 def stack_rqs():
     out = []
     for r in FILE_RQS:
@@ -1293,8 +1346,9 @@ def model_world(world, rqs):
             'bad': sorted(world.get('badv', ()))}
 
 
-def run_stack_model(env, case):
+def run_stack_model(env, case, seqs=None):
     rqs = case['rqs']
+    nseq = 0
     mrqs = [{'truthy': bool(rq['parent']), 'parent': str(rq['parent']), 'name': rq['name']} for rq in rqs]
     ops = []
     for op in case['ops']:
@@ -1307,6 +1361,18 @@ def run_stack_model(env, case):
             ops.append(['clearPipes', op['l']])
         elif k == 'noCache':
             ops.append(['noCache', bool(op['b'])])
+        elif k == 'clearSeq':
+            gaps = [[['run', g['c'], g['l'], g['rq']] for g in gap] for gap in op['gaps']]
+            if op['fn'] == 'clear_all':
+                # the order of the single clears: read off pypyr/cache/admin.py (ast), the same list Props/C13.lean
+                # `clear_all_order_inner_first` is about
+                ops.append(['clearSeq', clear_all_order()[0], gaps])
+            else:
+                # clear_pipes: the loaders in the order the implementation cleared them (any order will do:
+                # `clear_pipes_seq_refreshes`)
+                order = seqs[nseq]['order'] if seqs is not None and nseq < len(seqs) else []
+                ops.append(['clearPipesSeq', [x for x in order if isinstance(x, int)], gaps])
+            nseq += 1
         else:
             ops.append([k])
     r = env.driver.ask('cache.session', rqs=mrqs, world=model_world(case['world'], rqs), noCache=bool(case.get('noCache')),
